@@ -157,7 +157,14 @@ def runtime_cases(draw, max_components=5, max_stages=3, fail_rate=6):
         for ref in sorted(nodes):
             if nodes[ref]["idx"] == hint["component"]:
                 late[ref] = hint["late"]
-    return {"W": W, "script": script, "memo": sorted(memo), "late": late}
+    # an eighth of the cases: when some nodes report that they finished, a scheduler pass of the stage loop wins the
+    # controller's lock before finishedCheck() gets it
+    lockpass = []
+    if draw(st.integers(0, 7)) == 0:
+        cand = [r for r in sorted(nodes) if not nodes[r]["repeat"]]
+        if cand:
+            lockpass = sorted(draw(st.lists(st.sampled_from(cand), min_size=1, max_size=3, unique=True)))
+    return {"W": W, "script": script, "memo": sorted(memo), "late": late, "lockpass": lockpass}
 
 
 # ----------------------------------------------------------------------------------------------------------
@@ -333,7 +340,9 @@ def run_case(case, ctx: Ctx, chooser: Chooser, max_decisions=6000):
         mon = LaunchMonitor(W)
         drv = driver.Driver(exp, chooser, case["script"], on_launch=mon, max_decisions=max_decisions,
                             on_component_run=mon.on_component_run, memoized=case.get("memo", ()),
-                            delay_finished=case.get("late"))
+                            delay_finished=case.get("late"),
+                            pass_at_lock=(lambda ref, s=frozenset(case.get("lockpass") or ()): ref in s)
+                            if case.get("lockpass") else None)
         res = drv.run()
         return res, mon
     finally:
